@@ -14,7 +14,7 @@ EXPLANATION = (
     "kept blank lines leave no trace when the list is folded. (4) convert_import_items with reordering on: the order chosen for items "
     "with source spacing (doubled blanks, blanks around dots) equals the order chosen for the same items with formatted spacing. "
     "Multiline-flavour / attach-detach / boundary reproduction (mechanism 1 of "
-    "the anchors) is outside the claim.")
+    "the anchors) is outside the claim. Session 3: wrapper obligations (mode per delimiter) with a two-pass corpus; two passes of the real printer with the REAL parser in between on whole documents (hand-written and generated families), pretty's layout algorithm interpreted at representative widths: both passes give the same text. Open known findings are keyed by document.")
 
 
 def run(S):
